@@ -1,11 +1,16 @@
 package main
 
-// C07, CLI level: `desync extract` reads its chunks over HTTP from a server run by the harness.
-// The server holds the K-th chunk request; while it is held the harness sends SIGINT or SIGTERM to
-// the child, waits for the signal handler to cancel the root context, then releases the request.
-// Observables: exit status; the destination path (inode, size, content) when --in-place is not
-// given; left-over temp files.  Predicates: exit 0 => destination == blob; exit != 0 without
-// --in-place => destination untouched and no temp file left.
+// C07, CLI level: the long-running commands talk to an HTTP chunk server run by the harness.  The server
+// holds the K-th chunk request (GET, HEAD or PUT); while it is held the harness sends SIGINT or SIGTERM to
+// the child, waits for the signal handler to cancel the root context, then releases the request
+// (variant "http500": no signal, the K-th request fails instead).  Commands and option matrix:
+//   extract   plain | -k (in place) | fresh destination | --print-stats | --seed (half of the chunks come from a seed)
+//   make -s   plain | --print-stats
+//   chop, cache, tar -i, untar -i
+// Predicates: a command that exits 0 must have produced the complete result (destination == blob /
+// every chunk of the index readable from the target / index describes the input / tree complete);
+// extract without -k that exits != 0 leaves the destination path untouched (inode, size, content)
+// and no temp file behind.
 
 import (
 	"bytes"
@@ -29,18 +34,17 @@ import (
 )
 
 type c07Hold struct {
-	fail     bool // answer the K-th request with 500 instead of holding it
-	k        int64
-	n        int64
-	held     chan struct{}
-	release  chan struct{}
-	once     sync.Once
-	inner    http.Handler
-	requests int64
+	fail    bool // answer the K-th request with 500 instead of holding it
+	k       int64
+	n       int64
+	held    chan struct{}
+	release chan struct{}
+	once    sync.Once
+	inner   http.Handler
 }
 
 func (h *c07Hold) ServeHTTP(w http.ResponseWriter, r *http.Request) {
-	if r.Method == "GET" && strings.HasSuffix(r.URL.Path, ".cacnk") {
+	if strings.HasSuffix(r.URL.Path, ".cacnk") {
 		n := atomic.AddInt64(&h.n, 1)
 		if n == h.k {
 			if h.fail {
@@ -73,66 +77,249 @@ func c07StatFile(p string) (*c07Stat, error) {
 	return &c07Stat{Ino: st.Ino, Size: fi.Size(), Data: b}, nil
 }
 
-// c07CLICase: Variant = "sigint" | "sigterm" | "http500" (no signal: the K-th chunk request fails instead), with
-// suffix "/inplace" for -k, "/fresh" when the destination does not exist beforehand.
+func c07WriteIndex(path string, idx desync.Index) error {
+	f, err := os.Create(path)
+	if err != nil {
+		return err
+	}
+	defer f.Close()
+	_, err = idx.WriteTo(f)
+	return err
+}
+
+// c07CLICase: Op = extract | make | chop | cache | tar | untar.
+// Variant = "<sigint|sigterm|http500>[/inplace][/fresh][/print-stats][/seed]".
 func c07CLICase(a vh.Args, r *vh.Result, c *c07Case) error {
 	bin := os.Getenv("VH_DESYNC")
 	if bin == "" {
 		return nil
 	}
+	if c.Op == "" {
+		c.Op = "extract"
+	}
 	desync.Digest = desync.SHA512256{}
 	in := c.input()
-	idx := in.index()
 	work := filepath.Join(a.Work, "c07cli")
 	os.RemoveAll(work)
 	if err := os.MkdirAll(filepath.Join(work, "out"), 0755); err != nil {
 		return err
 	}
-	ls, sdir, err := bkNewStore(work, "store")
-	if err != nil {
-		return err
-	}
-	for _, ch := range in.chunks() {
-		if err := ls.StoreChunk(desync.NewChunk(ch)); err != nil {
-			return err
-		}
-	}
-	idxFile := filepath.Join(work, "in.caibx")
-	f, err := os.Create(idxFile)
-	if err != nil {
-		return err
-	}
-	if _, err := idx.WriteTo(f); err != nil {
-		return err
-	}
-	f.Close()
-	inplace := strings.Contains(c.Variant, "/inplace")
-	fresh := strings.Contains(c.Variant, "/fresh")
+	has := func(opt string) bool { return strings.Contains(c.Variant, "/"+opt) }
+	inplace, fresh, stats, seeded := has("inplace"), has("fresh"), has("print-stats"), has("seed")
+	failing := strings.HasPrefix(c.Variant, "http500")
 	sig := syscall.SIGINT
 	if strings.HasPrefix(c.Variant, "sigterm") {
 		sig = syscall.SIGTERM
 	}
-	dest := filepath.Join(work, "out", "blob")
-	prior := []byte("previous content of the destination, " + strconv.Itoa(len(in.Blob)) + " bytes expected after extract\n")
-	var before *c07Stat
-	if !fresh {
-		if err := os.WriteFile(dest, prior, 0644); err != nil {
-			return err
-		}
-		if before, err = c07StatFile(dest); err != nil {
-			return err
-		}
+	sdir := filepath.Join(work, "server")
+	if err := os.MkdirAll(sdir, 0755); err != nil {
+		return err
 	}
-	failing := strings.HasPrefix(c.Variant, "http500")
-	h := &c07Hold{fail: failing, k: int64(c.K), held: make(chan struct{}), release: make(chan struct{}), inner: http.FileServer(http.Dir(sdir))}
+	populate := func(dir string, idx desync.Index, blob []byte) error {
+		ls, err := desync.NewLocalStore(dir, desync.StoreOptions{})
+		if err != nil {
+			return err
+		}
+		for _, ch := range idx.Chunks {
+			if err := ls.StoreChunk(desync.NewChunk(blob[ch.Start : ch.Start+ch.Size])); err != nil {
+				return err
+			}
+		}
+		return nil
+	}
+	h := &c07Hold{fail: failing, k: int64(c.K), held: make(chan struct{}), release: make(chan struct{}),
+		inner: &c06Server{dir: sdir, fail: map[string]map[int]bool{}, count: map[string]int{}}}
 	srv := httptest.NewServer(h)
 	defer srv.Close()
+	common := []string{"-n", strconv.Itoa(c.N), "-e", "1", "-b", "1ms"}
+	sizes := fmt.Sprintf("%d:%d:%d", c.Min/1024, c.Avg/1024, c.Max/1024)
+	idxFile := filepath.Join(work, "in.caibx")
+	dest := filepath.Join(work, "out", "blob")
+	file := filepath.Join(work, "file")
+	var args []string
+	var complete func() string // "" when the result is complete
+	var before *c07Stat
 
-	args := []string{"extract", "-s", srv.URL + "/", "-n", strconv.Itoa(c.N), "-e", "1", "-b", "1ms"}
-	if inplace {
-		args = append(args, "-k")
+	switch c.Op {
+	case "extract":
+		idx := in.index()
+		if err := populate(sdir, idx, in.Blob); err != nil {
+			return err
+		}
+		if err := c07WriteIndex(idxFile, idx); err != nil {
+			return err
+		}
+		args = append([]string{"extract", "-s", srv.URL + "/"}, common...)
+		if inplace {
+			args = append(args, "-k")
+		}
+		if stats {
+			args = append(args, "--print-stats")
+		}
+		if seeded {
+			// a seed holding the first half of the chunks, in reverse order
+			chs := in.chunks()
+			sin := bkInput{}
+			for i := len(chs)/2 - 1; i >= 0; i-- {
+				sin.Blob = append(sin.Blob, chs[i]...)
+				sin.Sizes = append(sin.Sizes, len(chs[i]))
+			}
+			if err := os.WriteFile(filepath.Join(work, "seed"), sin.Blob, 0644); err != nil {
+				return err
+			}
+			if err := c07WriteIndex(filepath.Join(work, "seed.caibx"), sin.index()); err != nil {
+				return err
+			}
+			args = append(args, "--seed", filepath.Join(work, "seed.caibx"))
+		}
+		args = append(args, idxFile, dest)
+		if !fresh {
+			prior := []byte("previous content of the destination, " + strconv.Itoa(len(in.Blob)) + " bytes expected after extract\n")
+			if err := os.WriteFile(dest, prior, 0644); err != nil {
+				return err
+			}
+			var err error
+			if before, err = c07StatFile(dest); err != nil {
+				return err
+			}
+		}
+		complete = func() string {
+			st, err := c07StatFile(dest)
+			if err != nil {
+				return "destination: " + err.Error()
+			}
+			if !bytes.Equal(st.Data, in.Blob) {
+				return fmt.Sprintf("the destination (%d bytes) is not the blob (%d bytes)", st.Size, len(in.Blob))
+			}
+			return ""
+		}
+
+	case "make", "chop", "cache":
+		if err := os.WriteFile(file, in.Blob, 0644); err != nil {
+			return err
+		}
+		idx, err := c06SeqIndex(in.Blob, c.Min, c.Avg, c.Max)
+		if err != nil {
+			return err
+		}
+		idx.Index = desync.FormatIndex{FeatureFlags: desync.CaFormatExcludeNoDump | desync.CaFormatSHA512256, ChunkSizeMin: c.Min, ChunkSizeAvg: c.Avg, ChunkSizeMax: c.Max}
+		target := sdir
+		switch c.Op {
+		case "make":
+			out := filepath.Join(work, "out.caibx")
+			args = append([]string{"make", "-s", srv.URL + "/"}, common...)
+			if stats {
+				args = append(args, "--print-stats")
+			}
+			args = append(args, "-m", sizes, out, file)
+			complete = func() string {
+				if !stats { // with --print-stats make does not write the index
+					f, err := os.Open(out)
+					if err != nil {
+						return "no index written: " + err.Error()
+					}
+					got, err := desync.IndexFromReader(f)
+					f.Close()
+					if err != nil {
+						return "index unreadable: " + err.Error()
+					}
+					if d := bkIndexDescribes(got, in.Blob); d != "" {
+						return "index: " + d
+					}
+				}
+				return bkReadBack(target, idx, in.Blob)
+			}
+		case "chop":
+			if err := c07WriteIndex(idxFile, idx); err != nil {
+				return err
+			}
+			args = append([]string{"chop", "-s", srv.URL + "/"}, common...)
+			args = append(args, idxFile, file)
+			complete = func() string { return bkReadBack(target, idx, in.Blob) }
+		case "cache":
+			if err := populate(sdir, idx, in.Blob); err != nil {
+				return err
+			}
+			if err := c07WriteIndex(idxFile, idx); err != nil {
+				return err
+			}
+			target = filepath.Join(work, "cache")
+			if err := os.MkdirAll(target, 0755); err != nil {
+				return err
+			}
+			args = append([]string{"cache", "-s", srv.URL + "/", "-c", target}, common...)
+			args = append(args, idxFile)
+			complete = func() string { return bkReadBack(target, idx, in.Blob) }
+		}
+
+	case "tar", "untar":
+		// the blob is a catar archive
+		tree := filepath.Join(work, "tree")
+		if err := os.MkdirAll(tree, 0755); err != nil {
+			return err
+		}
+		if err := desync.UnTar(context.Background(), bytes.NewReader(in.Blob), desync.NewLocalFS(tree, c07FSOpt)); err != nil {
+			return err
+		}
+		if c.Op == "tar" {
+			var buf bytes.Buffer
+			if err := desync.Tar(context.Background(), &buf, desync.NewLocalFS(tree, desync.LocalFSOptions{})); err != nil {
+				return err
+			}
+			archive := buf.Bytes()
+			out := filepath.Join(work, "out.caidx")
+			args = append([]string{"tar", "-i", "-s", srv.URL + "/"}, common...)
+			args = append(args, "-m", sizes, out, tree)
+			complete = func() string {
+				f, err := os.Open(out)
+				if err != nil {
+					return "no index written: " + err.Error()
+				}
+				got, err := desync.IndexFromReader(f)
+				f.Close()
+				if err != nil {
+					return "index unreadable: " + err.Error()
+				}
+				if d := bkIndexDescribes(got, archive); d != "" {
+					return "index: " + d
+				}
+				return bkReadBack(sdir, got, archive)
+			}
+		} else {
+			want, err := c07ListTree(tree)
+			if err != nil {
+				return err
+			}
+			idx, err := c06SeqIndex(in.Blob, c.Min, c.Avg, c.Max)
+			if err != nil {
+				return err
+			}
+			idx.Index = desync.FormatIndex{FeatureFlags: desync.TarFeatureFlags, ChunkSizeMin: c.Min, ChunkSizeAvg: c.Avg, ChunkSizeMax: c.Max}
+			if err := populate(sdir, idx, in.Blob); err != nil {
+				return err
+			}
+			idxFile = filepath.Join(work, "in.caidx")
+			if err := c07WriteIndex(idxFile, idx); err != nil {
+				return err
+			}
+			dst := filepath.Join(work, "untarred")
+			if err := os.MkdirAll(dst, 0755); err != nil {
+				return err
+			}
+			args = append([]string{"untar", "-i", "-s", srv.URL + "/", "--no-same-owner"}, common...)
+			args = append(args, idxFile, dst)
+			complete = func() string {
+				got, err := c07ListTree(dst)
+				if err != nil {
+					return err.Error()
+				}
+				return c07DiffTree(got, want)
+			}
+		}
+	default:
+		return fmt.Errorf("unknown cli op %q", c.Op)
 	}
-	args = append(args, idxFile, dest)
+
 	ctx, cancel := context.WithTimeout(context.Background(), 60*time.Second)
 	defer cancel()
 	cmd := exec.CommandContext(ctx, bin, args...)
@@ -170,28 +357,31 @@ func c07CLICase(a vh.Args, r *vh.Result, c *c07Case) error {
 	if len(c.Detail) > 300 {
 		c.Detail = c.Detail[:300]
 	}
-	after, aerr := c07StatFile(dest)
-	c.Complete = aerr == nil && bytes.Equal(after.Data, in.Blob)
+	d := complete()
+	c.Complete = d == ""
+	failed := failing && c.K <= c.Hits
 
-	key := fmt.Sprintf("cli|%s|%d|%d|%d", c.Variant, c.N, c.K, len(c.Sizes))
-	r.Count(key, signalled || (failing && c.K <= c.Hits))
-	r.Dist("cli:" + c.Variant)
+	key := fmt.Sprintf("cli|%s|%s|%d|%d|%d", c.Op, c.Variant, c.N, c.K, len(c.Sizes))
+	r.Count(key, signalled || failed)
+	r.Dist("cli:" + c.Op + " " + c.Variant)
 	r.Dist("cli-result:" + c.Got)
+	cls := "cli-" + c.Op
 	if ctx.Err() != nil {
-		r.Fail("predicate", "cli-extract/hang-after-signal", fmt.Sprintf("desync extract did not exit within 60s after %v at request %d", sig, c.K), c)
+		r.Fail("predicate", cls+"/hang-after-signal", fmt.Sprintf("desync %s did not exit within 60s after %v at request %d", c.Op, sig, c.K), c)
 		return nil
 	}
 	if rc == 0 && !c.Complete {
-		r.Fail("predicate", "cli-extract/exit0-but-incomplete", fmt.Sprintf("desync extract (n=%d, %s at chunk request %d) exited 0 but the destination is not the blob", c.N, c.Variant, c.K), c)
+		r.Fail("predicate", cls+"/exit0-but-incomplete", fmt.Sprintf("desync %s (n=%d, %s at chunk request %d) exited 0 but the result is incomplete: %s", c.Op, c.N, c.Variant, c.K, d), c)
 	}
-	if failing && c.K <= c.Hits && rc == 0 {
-		r.Fail("predicate", "cli-extract/exit0-after-failed-request", fmt.Sprintf("desync extract exited 0 although chunk request %d was answered with 500", c.K), c)
+	if failed && rc == 0 {
+		r.Fail("predicate", cls+"/exit0-after-failed-request", fmt.Sprintf("desync %s exited 0 although chunk request %d was answered with 500", c.Op, c.K), c)
 	}
-	if rc != 0 && !signalled && !(failing && c.K <= c.Hits) {
-		r.Fail("predicate", "cli-extract/error-without-signal", fmt.Sprintf("desync extract exited %d without having been signalled: %s", rc, c.Detail), c)
+	if rc != 0 && !signalled && !failed {
+		r.Fail("predicate", cls+"/error-without-signal", fmt.Sprintf("desync %s exited %d without having been signalled: %s", c.Op, rc, c.Detail), c)
 	}
-	if rc != 0 && !inplace {
+	if c.Op == "extract" && rc != 0 && !inplace {
 		// the destination path must be untouched
+		after, aerr := c07StatFile(dest)
 		switch {
 		case fresh && aerr == nil:
 			r.Fail("predicate", "cli-extract/destination-created-on-failure", fmt.Sprintf("desync extract exited %d but created the destination (%d bytes)", rc, after.Size), c)
@@ -225,27 +415,75 @@ func c07CLI(a vh.Args, r *vh.Result, rng *vh.Rand) error {
 		r.Note("VH_DESYNC not set: CLI cases skipped")
 		return nil
 	}
+	thorough := a.Tier == "thorough"
 	nch := 24
 	in := bkDupInput(rng, nch, nch, 60)
-	variants := []string{"sigint", "sigterm", "sigint/inplace", "sigterm/fresh", "http500", "http500/fresh"}
+	type spec struct {
+		op       string
+		variants []string
+	}
+	// extract: small explicit chunks
+	exVariants := []string{"sigint", "sigterm", "sigint/inplace", "sigterm/fresh", "http500", "http500/fresh",
+		"sigint/print-stats", "sigterm/print-stats/fresh", "sigint/print-stats/inplace", "http500/print-stats", "sigterm/seed", "sigint/seed/print-stats"}
 	ks := []int{1, 2, 3, 5, 9, 17, nch, nch + 5}
 	ns := []int{1, 4}
-	if a.Tier == "thorough" {
+	if thorough {
 		ks = nil
 		for k := 1; k <= nch+2; k++ {
 			ks = append(ks, k)
 		}
 		ns = []int{1, 2, 4, 10}
 	}
-	for _, v := range variants {
+	for vi, v := range exVariants {
 		for _, n := range ns {
-			for _, k := range ks {
-				if a.Tier != "thorough" && (v != "sigint" && k%2 == 0) {
+			for ki, k := range ks {
+				_ = ki
+				if !thorough && vi > 0 && vi < 6 && k%2 == 0 {
+					continue
+				}
+				if !thorough && vi >= 6 && k != 2 && k != 5 && k != 17 {
 					continue
 				}
 				c := &c07Case{Op: "extract", Variant: v, N: n, K: k, BlobHex: vh.Hex(in.Blob), Sizes: in.Sizes, Level: "cli"}
 				if err := c07CLICase(a, r, c); err != nil {
 					return err
+				}
+			}
+		}
+	}
+	// the writers and untar: content-defined chunks of 1-4 kB
+	seg := rng.Bytes(5000 + rng.Intn(3000))
+	var blob []byte
+	for i := 0; i < 4; i++ {
+		blob = append(blob, seg...)
+		blob = append(blob, rng.Bytes(1200)...)
+	}
+	archive, err := c07MakeArchiveN(a.Work, rng, 8000)
+	if err != nil {
+		return err
+	}
+	specs := []spec{
+		{"make", []string{"sigint", "sigterm/print-stats", "http500/print-stats"}},
+		{"chop", []string{"sigint", "sigterm"}},
+		{"cache", []string{"sigint", "sigterm"}},
+		{"tar", []string{"sigint"}},
+		{"untar", []string{"sigint", "sigterm"}},
+	}
+	wks := []int{1, 4, 11}
+	if thorough {
+		wks = []int{1, 2, 3, 4, 6, 9, 13, 18, 25, 40}
+	}
+	for _, sp := range specs {
+		for _, v := range sp.variants {
+			for _, n := range ns {
+				for _, k := range wks {
+					c := &c07Case{Op: sp.op, Variant: v, N: n, K: k, BlobHex: vh.Hex(blob), Min: 1024, Avg: 2048, Max: 4096, Level: "cli"}
+					if sp.op == "tar" || sp.op == "untar" {
+						c.BlobHex = vh.Hex(archive)
+					}
+					if err := c07CLICase(a, r, c); err != nil {
+						return err
+					}
 				}
 			}
 		}
